@@ -19,10 +19,6 @@ Record istate := {
   i_obs : pool                        (* the pool as observed so far *)
 }.
 
-Definition apply_diff (q : pool) (d : list (nat * obj)) : pool :=
-  let n := fold_right (fun kv acc => Nat.max (S (fst kv)) acc) (length q) d in
-  map (fun s => match diff_lookup d s with Some o => o | None => nth s q ODead end) (seq 0 n).
-
 Definition cat_at (cs : list (option tracked)) (o : nat) : option (cat val) :=
   match nth o cs None with Some (TCat c) => Some c | _ => None end.
 Definition put_cat (cs : list (option tracked)) (o : nat) (c : cat val) : list (option tracked) := set_nth o (Some (TCat c)) cs.
@@ -165,6 +161,20 @@ Definition istep (zero : val) (st : istate) (o : op) : option ires :=
                 of_cat_out (drain (S (it_size (snd r))) (fst r) (snd r)) (fun ps => Some (fst r, cs ++ [Some (TArr (it_vals (snd r)))], RNew, Some (OIter VNil (assoc_vals ps) 0))))
     | None => None
     end
+  | AssocSet sl i v =>
+    (* the caller writes through the association OBJECT at position i of a Go array handed out by AsArray:
+       the object is a heap cell, so every structure that holds the same pointer would show the new value *)
+    match nth sl cs None with
+    | Some (TArr ids) =>
+      match nth_error ids i with
+      | Some a => match h_get h a with
+                  | Some _ => Some (h_set_value h a v, cs, RUnit, None)
+                  | None => None
+                  end
+      | None => None
+      end
+    | _ => None
+    end
   | _ => None
   end.
 
@@ -194,7 +204,7 @@ Definition pad (cs : list (option tracked)) (n : nat) : list (option tracked) :=
   cs ++ repeat None (n - length cs).
 (* the caller overwrites an element of a Go array it was handed: the array no longer holds that pointer *)
 Definition caller_write (cs : list (option tracked)) (o : op) : list (option tracked) :=
-  match o with SliceSet s _ _ => set_nth s None cs | _ => cs end.
+  match o with SliceSet s _ _ | AssocSet s _ _ | SortSlice s _ => set_nth s None cs | _ => cs end.
 
 (* a call that the two-structure machine would answer although the receiver is a Catalog it should track *)
 Definition catalog_op_unhandled (st : istate) (o : op) : bool :=
@@ -241,7 +251,9 @@ Fixpoint mismatches_both_from (n : nat) (cases : list hist) : list (nat * nat) :
     match check_hist h with
     | Some k => (n, k) :: mismatches_both_from (S n) t
     | None =>
-      match check_cat h with
+      (* the two-structure machine reads operands from the OBSERVED pool: it replays the histories in which
+         every object was observed in every step (the others are checked by the one-list model only) *)
+      match (if fully_observed h then check_cat h else None) with
       | Some k => (n, k) :: mismatches_both_from (S n) t
       | None => mismatches_both_from (S n) t
       end
@@ -264,10 +276,10 @@ Fixpoint cat_state_after (zero : val) (st : istate) (steps : list pstep) : istat
 
 Definition both_report (h : hist) (k : nat) :=
   let before := pool_after (h_zero h) [] (firstn k (map ps_op (h_steps h))) in
-  let s := nth k (h_steps h) {| ps_op := IsEmpty 0; ps_ret := RBad; ps_diff := [] |} in
+  let s := nth k (h_steps h) {| ps_op := IsEmpty 0; ps_ret := RBad; ps_diff := []; ps_skip := [] |} in
   let st := cat_state_after (h_zero h) {| i_heap := []; i_cats := []; i_obs := [] |} (firstn k (h_steps h)) in
   (check_hist h, check_cat h,
-   step_report (h_zero h) before s,
+   hist_report h k, fully_observed h,
    (i_heap st, i_cats st), option_map (fun r : ires => (fst (fst (fst r)), snd (fst (fst r)), snd (fst r), snd r)) (istep (h_zero h) st (ps_op s)), ps_ret s, ps_diff s).
 
 (* statistics for the meta file: calls answered by the two-structure machine *)
